@@ -108,6 +108,11 @@ type hstats struct {
 // runtimeTouchPlainChild calls the owning runtime's Size (or Marshal) on the k-th populated singular child of live
 // whose Go type has no generated fast-marshal methods.  Reports whether there was one.
 func runtimeTouchPlainChild(mt *MsgType, live any, k int, marshal bool) bool {
+	return runtimeTouchPlainChildOf(mt, live, k, marshal) != nil
+}
+
+// runtimeTouchPlainChildOf is runtimeTouchPlainChild returning the child that was sized / marshaled (nil if none).
+func runtimeTouchPlainChildOf(mt *MsgType, live any, k int, marshal bool) any {
 	cm := reflectOf(live)
 	var kids []any
 	cm.Range(func(fd protoreflect.FieldDescriptor, v protoreflect.Value) bool {
@@ -121,7 +126,7 @@ func runtimeTouchPlainChild(mt *MsgType, live any, k int, marshal bool) bool {
 		return true
 	})
 	if len(kids) == 0 {
-		return false
+		return nil
 	}
 	sort.Slice(kids, func(i, j int) bool { return fmt.Sprintf("%T", kids[i]) < fmt.Sprintf("%T", kids[j]) })
 	child := kids[k%len(kids)]
@@ -134,7 +139,7 @@ func runtimeTouchPlainChild(mt *MsgType, live any, k int, marshal bool) bool {
 			} else {
 				_ = proto.Size(pm)
 			}
-			return true
+			return child
 		}
 	case "gogo":
 		if pm, ok := child.(gogo.Message); ok {
@@ -143,7 +148,7 @@ func runtimeTouchPlainChild(mt *MsgType, live any, k int, marshal bool) bool {
 			} else {
 				_ = gogo.Size(pm)
 			}
-			return true
+			return child
 		}
 	case "legacy":
 		if pm, ok := child.(golang.Message); ok {
@@ -152,10 +157,10 @@ func runtimeTouchPlainChild(mt *MsgType, live any, k int, marshal bool) bool {
 			} else {
 				_ = golang.Size(pm)
 			}
-			return true
+			return child
 		}
 	}
-	return false
+	return nil
 }
 
 // plainChildTypes: the types with a singular field of a well-known type (no fast-marshal code for the child).
